@@ -4,7 +4,24 @@ import json, os
 HERE = os.path.dirname(os.path.dirname(os.path.abspath(__file__)))
 ALL = ["C%02d" % i for i in range(1, 21)]
 
+SOLVER_NOTE = 'Trusted: Coq kernel; the solver model Model/Solver.v is hand-written and tied to ConstraintsSolverMixin/ObjectivesMaximizerMixin trace-exactly (same sequence of evaluate calls, same numpy draws, same outcome and final sequence) on recorded runs, with specification behaviour supplied as finite tables recorded from the implementation; the recorder wraps classes from outside (no source hooks) and interns specification objects by content; float-valued totals are compared trace-exactly only where binary64 arithmetic is exact (integer/dyadic scores and boosts), otherwise by the oracle with 1e-9 tolerance; numpy RandomState is an oracle.'
+
 CLAIMED = {
+    "C01": dict(
+        text="Theorems (Coq) over an abstract-specification model of resolve_constraints: for EVERY type of specification with arbitrary evaluate/localized/initialized_on_problem functions and resolution heuristics (wrong ones included), every configuration and every stream of random draws, a normal return implies every constraint passes when fully re-evaluated (the return that skips the final check is covered by the C04 hypothesis); and if localized() does not raise and heuristics end with a sequence of the local space or NoSolutionError, no outcome other than return / NoSolutionError exists (every Python-level partial operation on the path is modelled as an error outcome and shown unreachable). Model tied to the code trace-exactly on recorded runs; oracle re-evaluates every constraint and classifies exceptions on the implementation.",
+        note=SOLVER_NOTE, technique="Coq proof (final-check dominance; invariant 'sequence stays in the mutation space' excludes the error sites) + trace-exact correspondence with recorded runs", design="6/C01"),
+    "C02": dict(
+        text="Theorems (Coq): optimize, optimize_objective and the direct exhaustive/random optimisers keep every constraint satisfied (full re-evaluation), for every kind of constraint whose localization is sound (the C08 law; constraints flagged enforced are covered by the mutation-space guarantee), every objective set, configuration and random stream. Model tied trace-exactly to the code; oracle: all_constraints_pass(autopass=False) before/after single and repeated calls on the implementation.",
+        note=SOLVER_NOTE + " The instantiation of the abstract soundness hypothesis by the built-in classes rests on the C08 theorems and on correspondence (re-initialisation of localized built-ins is content-stable).", technique="Coq proof (acceptance invariant over local searches + soundness transfer) + trace-exact correspondence", design="6/C02"),
+    "C03": dict(
+        text="Theorems (Coq): optimize never lowers the boost-weighted total (exact rationals), nor does a repeated call, for every objective kind with score-faithful localization (the C09 law), any boosts (zero boosts are excluded from local problems and contribute nothing), every configuration and random stream; local searches accept strict improvements only. Model tied trace-exactly to the code; oracle: objective_scores_sum before/after single and repeated optimize() on the implementation.",
+        note=SOLVER_NOTE + " Float rounding of the global sum is outside the theorem (improvements are far above 1e-13 for generated tables; compared with 1e-9 tolerance).", technique="Coq proof (local total difference = global total difference by the C09 law; strict-improvement acceptance) + trace-exact correspondence", design="6/C03"),
+    "C06": dict(
+        text="Theorems (Coq): resolve_constraints_by_exhaustive_search succeeds iff some variant of the mutation space is feasible (keeping the first one in enumeration order), otherwise NoSolutionError with the sequence restored, and draws nothing; optimize_by_exhaustive_search ends on a feasible variant whose weighted total is the maximum over all feasible variants, provided scores never exceed declared bests and boosts are non-negative. With C15 (all_variants = the whole product) this is completeness/optimality over the mutation space. Tied trace-exactly to the code; oracle: brute force over the product of the choices on spaces of 1..3000 variants (frozen spaces included).",
+        note=SOLVER_NOTE, technique="Coq proof (loop invariant over the enumeration; weighted best-score bound for the early exit) + trace-exact correspondence + brute-force oracle", design="6/C06"),
+    "C12": dict(
+        text="Theorems (Coq): every sequence the solver ever assigns - top-level and every candidate of local exhaustive/random searches - has the original length and lies in the mutation space, for resolve_constraints, optimize and the direct searches, every specification kind, configuration and random stream; a failed exhaustive search restores its starting sequence. Hence an abort at ANY evaluation call leaves a usable problem. The model's evaluation/assignment trace is tied to the code trace-exactly; fault enumeration on the implementation raises at the k-th evaluate call and checks length, hard restrictions, sequence_before, re-evaluation and re-solve.",
+        note=SOLVER_NOTE + " Exceptions are injected by wrapping evaluate from outside; a NoSolutionError thrown by a user specification itself would be caught by the solver and is out of scope.", technique="Coq proof (state invariant over the whole run) + trace-exact correspondence + fault enumeration on the implementation", design="6/C12"),
     "C08": dict(
         text="Theorem (Coq): for every modelled built-in class except UniquifyAllKmers, AvoidHairpins and the pure objective HarmonizeRCA, every well-formed instance, every window W inside the sequence and every pair of sequences differing only inside W: if S passes before and S localized to W passes after, S passes after; if localization yields nothing the score is unchanged. The model's localized()/evaluate() are tied to the code by vm_compute correspondence on all 16 classes (including the three not proved), and a direct oracle runs the property on the implementation. Partial: UniquifyAllKmers and AvoidHairpins are decided by the differential run + oracle only.",
         note="Trusted: Coq kernel; hand model of evaluate/localized (Model/Specs.v) tied by correspondence; thresholds read as the decimals the user wrote (float caveat in DESIGN section 9); with_righthand=False variants are modelled but not claimed.",
